@@ -320,6 +320,11 @@ func fixCase(ctx *Ctx, s *schema.Schema, tg planTarget, e int, class string, dep
 			props = "C18"
 		}
 		ctx.Add(pl, impl, true, props)
+		if back != nil {
+			// do the side conditions of C18.typed_reencode_fixpoint_partial hold of this accepted input? (answered by
+			// the model only; counted in the evidence as `model.plan.side: …`)
+			ctx.Add(fmt.Sprintf("plan.side %d %d %s", tg.dyn, tg.tag, hexUp(in)), "?", false, "C18")
+		}
 	}
 	v, why := fixDec(E, tg, in)
 	outcome := "err"
